@@ -17,6 +17,9 @@ HARNESSES = {
     'c16': dict(flavour='asan', srcs=['c16.cpp']),
     'c12': dict(flavour='asan', srcs=['c12.cpp']),
     'c20_tsan': dict(flavour='tsan', srcs=['c20.cpp']),
+    'c19_tsan': dict(flavour='tsan', srcs=['c19.cpp']),
+    'c19_asan': dict(flavour='asan', srcs=['c19.cpp']),
+    'c19_fort': dict(flavour='fort', srcs=['c19_fort.cpp'], common=False, libs='-ljsoncpp -lsystemd'),
     'c20_asan': dict(flavour='asan', srcs=['c20.cpp']),
     'c12_fuzz': dict(flavour='fuzz', srcs=['c12_fuzz.cpp']),
     'oomd_bin': dict(flavour='asan', srcs=[], common=False, with_main=True, libs='-ljsoncpp -lsystemd'),
@@ -290,6 +293,25 @@ PROPS = {
         assumptions=['thread interleavings are those the scheduler and generated yields produce (sampled, not enumerated)',
                      'the double buffer makes "1 MiB" a per-queue bound: <= 2 MiB unwritten in total'],
     ),
+    'C19': dict(
+        harness='c19_tsan', level='exploration',
+        quick=dict(shards=8, n=40, size=100, asan_shards=8, asan_n=40),
+        thorough=dict(shards=16, n=1500, size=100, asan_shards=16, asan_n=1500),
+        confirm_replays=3,
+        rule='three sub-checks on real Stats objects with real threads and unix sockets. lin: rapidcheck-generated '
+             'concurrent programs (2-4 threads x 2-5 operations from increment / set / reset / getAll and socket g / r '
+             'clients, generated yields), each executed 12 times; every observed history (invocation / response '
+             'stamps, results) must be linearizable against a sequential counter map (exhaustive search, reset keeps '
+             'keys). bulk: 2-8 threads x 100-3000 increments sum exactly. proto: 1-6 client sessions (request bytes: '
+             'every kind of first byte, with / without terminator, embedded NUL, random bytes, up to 45 bytes; send-and-'
+             'read, half-close, connection reset, stall past the 2 s server timeout; sequential or parallel): at most '
+             'one reply, well-formed JSON with the specified error / body, then EOF; a following g is answered and '
+             'counters are as specified; ~Stats completes (an abort from the destructor kills the harness = violation). '
+             'paths: every socket path length 90..130 with _FORTIFY_SOURCE=2: < 108 serves clients, >= 108 is an '
+             'initialisation failure. TSan build and ASan build. Non-trivial = a history with >= 2 overlapping '
+             'operations, a bulk run, or a session that ends abnormally.',
+        assumptions=['thread interleavings are those the scheduler and generated yields produce (sampled, not enumerated)'],
+    ),
 }
 
 
@@ -451,5 +473,49 @@ def run_C20(r, spec, tier):
     cov['flavours'] = dict(tsan=agg['evaluations'], asan=agg2['evaluations'])
     for k, v in agg2['labels'].items():
         cov['labels'][k] = cov['labels'].get(k, 0) + v
+    cov['replayed'] = nrep
+    return cov
+
+
+def run_C19(r, spec, tier):
+    import subprocess, json, os
+    from vpdriver import build_harness, SAN_ENV
+    nrep = r.replay_tier('c19_asan')
+    env = {'VP_SHRINK_BUDGET': '60'}
+    agg = r.campaign('c19_tsan', 'tsan', tier['shards'], tier['n'], tier['size'], extra_env=env)
+    agg2 = r.campaign('c19_asan', 'asan', tier['asan_shards'], tier['asan_n'], tier['size'], extra_env=env)
+    cov = cov_from(agg)
+    cov['evaluations'] += agg2['evaluations']
+    cov['distinct_nontrivial'] = len(agg['hashes'] | agg2['hashes'])
+    cov['flavours'] = dict(tsan=agg['evaluations'], asan=agg2['evaluations'])
+    for k, v in agg2['labels'].items():
+        cov['labels'][k] = cov['labels'].get(k, 0) + v
+    # socket path lengths, exhaustive 90..130
+    b = build_harness('c19_fort')
+    pr = subprocess.run([b, '90', '130'], capture_output=True, text=True, errors='replace')
+    lines = [l for l in pr.stdout.splitlines() if l.startswith('{')]
+    okc = 0
+    badlen = None
+    for l in lines:
+        try:
+            o = json.loads(l)
+            okc += 1 if o.get('ok') else 0
+            if not o.get('ok') and badlen is None:
+                badlen = o.get('len')
+        except Exception:
+            badlen = badlen or l
+    cov['socket_path_lengths'] = dict(lengths_checked=len(lines), ok=okc, exhaustive_range='90..130',
+                                      build='g++ -O2 -D_FORTIFY_SOURCE=2')
+    cov['evaluations'] += len(lines)
+    if pr.returncode != 0 or okc != 41:
+        why = 'socket path length %s: %s' % (badlen, (pr.stderr or pr.stdout)[-300:].replace('\n', ' '))
+        from vpdriver import match_known, save_violation
+        k = match_known(r.prop, why, why)
+        if k:
+            r.known_hits[k['what']] = r.known_hits.get(k['what'], 0) + 1
+        else:
+            path = save_violation(r.prop, {'property': 'C19', 'harness': 'c19_fort', 'why': why,
+                                           'case': {'sub': 'paths', 'from': 90, 'to': 130}}, 'paths')
+            r.violations.append((why, path))
     cov['replayed'] = nrep
     return cov
